@@ -315,6 +315,8 @@ class P:
 
 
 def _strip_paren(x):
+    if isinstance(x, dict):
+        return {k: _strip_paren(v) for k, v in x.items()}
     if isinstance(x, tuple):
         if x and x[0] == 'paren':
             return _strip_paren(x[1])
